@@ -9,6 +9,7 @@ import Y0.Props.C10Sem
 import Y0.Props.C01Sem
 import Y0.Lemmas.IdFuel
 import Y0.Lemmas.FscmObs
+import Y0.Lemmas.FscmToScmCompat
 
 namespace Y0
 namespace C10Sem
@@ -41,30 +42,126 @@ kernels): for a well-formed world `dos` and distinct non-intervened nodes `ev`,
 `P_{do(dos)}(ev)` by truncated factorisation = mass of the noise points at which `solve u dos` agrees with `ev`. -/
 theorem fscm_toScm_prDo {M : Fscm.Model} {card : Name → Nat} {base : Nat} {G : MG Name} (hOK : ToScmOK M card base G)
     (dos ev : List (Name × Nat)) (hdv : DoValid card dos) (hevn : (ev.map (·.1)).Nodup)
-    (hev : ∀ p ∈ ev, p.1 ∈ G.nodes ∧ p.1 ∉ dos.map (·.1)) :
+    (hev : ∀ p ∈ ev, p.1 ∈ G.nodes ∧ p.1 ∉ dos.map (·.1)) (hevr : ∀ p ∈ ev, p.2 < card p.1) :
     (M.toScm card base).prDo G dos ev = (M.fscmEnv card).pr none (ev.map fun p => ⟨p.1, dos, p.2⟩) :=
-  Fscm.fscm_toScm_prDo hOK dos ev hdv hevn hev
+  Fscm.fscm_toScm_prDo hOK dos ev hdv hevn hev hevr
 
 /-- the observational case -/
 theorem fscm_toScm_obs {M : Fscm.Model} {card : Name → Nat} {base : Nat} {G : MG Name} (hOK : ToScmOK M card base G)
-    (ev : List (Name × Nat)) (hevn : (ev.map (·.1)).Nodup) (hev : ∀ p ∈ ev, p.1 ∈ G.nodes) :
+    (ev : List (Name × Nat)) (hevn : (ev.map (·.1)).Nodup) (hev : ∀ p ∈ ev, p.1 ∈ G.nodes)
+    (hevr : ∀ p ∈ ev, p.2 < card p.1) :
     (M.toScm card base).prDo G [] ev = (M.fscmEnv card).pr none (ev.map fun p => ⟨p.1, [], p.2⟩) :=
-  Fscm.fscm_toScm_prDo hOK [] ev ⟨by simp, by simp⟩ hevn (fun p hp => ⟨hev p hp, by simp⟩)
+  Fscm.fscm_toScm_prDo hOK [] ev ⟨by simp, by simp⟩ hevn (fun p hp => ⟨hev p hp, by simp⟩) hevr
+
+/-- the induced model is a positive semi-Markovian model compatible with `G` (the model class of C01/C03/C05/C17) as soon as
+the pmfs are positive and every value of every variable has positive probability under its private noise -/
+theorem fscm_toScm_compatible {M : Fscm.Model} {card : Name → Nat} {base : Nat} {G : MG Name}
+    (hOK : ToScmOK M card base G) (hnorm : M.Normalised)
+    (hkpos : ∀ v ∈ M.order, ∀ σ, 0 < M.kernOf card base v σ) : (M.toScm card base).Compatible G :=
+  toScm_compatible hOK hnorm hkpos
 
 /-- **ID is sound in functional SCMs.**  Whenever ID returns an estimand `e` for `P(Y | do(X))`, then in every functional
-SCM `M` compatible with `G` whose induced semi-Markovian model is positive (`hpos`), `e` evaluated on the
-(counterfactual) environment of `M` is the probability that `Y` takes the values `σ Y` in the world `do(X := σ X)`:
-the mass of the noise points `u` with `solve M u (X := σ X) y = σ y` for all `y ∈ Y`. -/
+SCM `M` compatible with `G` with positive pmfs and positive push-forward kernels, `e` evaluated on the (counterfactual)
+environment of `M` is the probability that `Y` takes the values `σ Y` in the world `do(X := σ X)`: the mass of the
+noise points `u` with `solve M u (X := σ X) y = σ y` for all `y ∈ Y`. -/
 theorem id_sound_fscm {topo : MG Name → Except Err (List Name)} (ts : TopoSound topo) (G : MG Name) (X Y : List Name)
     (hq : ValidQuery G X Y) (hY : Y.Nodup) (e : Expr) (h : identify topo G X Y = .ok e)
-    (M : Fscm.Model) (card : Name → Nat) (base : Nat) (hOK : ToScmOK M card base G)
-    (hpos : (M.toScm card base).Compatible G) (σ' σ : Val) (hσX : ∀ x ∈ X, σ x < card x) :
+    (M : Fscm.Model) (card : Name → Nat) (base : Nat) (hOK : ToScmOK M card base G) (hnorm : M.Normalised)
+    (hkpos : ∀ v ∈ M.order, ∀ σ, 0 < M.kernOf card base v σ) (σ' σ : Val) (hσ : ∀ x, σ x < card x) :
     den (M.fscmEnv card) σ' e σ = Fscm.prob M (Y.map fun y => ⟨y, Fscm.doOf X σ, σ y⟩) := by
   rw [den_fscmEnv_eq_toScm hOK σ' e (id_vocab topo (C01Sem.topoNodes_of_sound ts) G hq.wf X Y e h)
-    (id_obsWS topo G X Y e h) σ, id_sound ts G X Y hq e h (M.toScm card base) hpos σ' σ]
-  exact fscm_toScm_F hOK X Y hY (fun y hy => ⟨hq.ysub y hy, hq.disj y hy⟩) σ hσX
+    (id_obsWS topo G X Y e h) σ hσ,
+    id_sound ts G X Y hq e h (M.toScm card base) (toScm_compatible hOK hnorm hkpos) σ' σ]
+  exact fscm_toScm_F hOK X Y hY (fun y hy => ⟨hq.ysub y hy, hq.disj y hy⟩) σ (fun x _ => hσ x) (fun x _ => hσ x)
 
 end fscm_scm
+
+/-! ### non-vacuity: the confounded functional SCM `conf3` (Y0/Props/C10Sem.lean) -/
+
+section example_conf3
+open Fscm
+
+theorem conf3_toScmOK : ToScmOK conf3 (fun _ => 2) 100 conf3G := by
+  refine ⟨conf3_wellFormed, conf3_compatible, by decide, ?_, ?_⟩
+  · intro v j hj
+    match v with
+    | 0 => simp [conf3] at hj ⊢; omega
+    | 1 => simp [conf3] at hj ⊢; omega
+    | 2 => simp [conf3] at hj ⊢; omega
+    | n + 3 => simp [conf3] at hj
+  · intro v
+    match v with
+    | 0 => simp [conf3]
+    | 1 => simp [conf3]
+    | 2 => simp [conf3]
+    | n + 3 => simp [conf3]
+
+theorem conf3_normalised : conf3.Normalised := by
+  intro pmf hp
+  simp only [conf3, List.mem_cons, List.not_mem_nil, or_false] at hp
+  rcases hp with rfl | rfl | rfl | rfl
+  all_goals
+    (refine ⟨?_, by norm_num⟩
+     intro p hpp
+     simp only [List.mem_cons, List.not_mem_nil, or_false] at hpp
+     rcases hpp with rfl | rfl <;> norm_num)
+
+/-- whatever the parents and the shared noise, each value of each variable has positive probability under the private
+noise -/
+theorem conf3_kernPos : ∀ v ∈ conf3.order, ∀ σ : Val, 0 < conf3.kernOf (fun _ => 2) 100 v σ := by
+  intro v hv σ
+  have hv' : v = 0 ∨ v = 1 ∨ v = 2 := by simpa [conf3] using hv
+  unfold Model.kernOf
+  split
+  swap
+  · exact one_pos
+  rename_i h
+  simp only at h
+  rcases hv' with rfl | rfl | rfl
+  · have hp : conf3.privOf 100 0 = [101] := by decide
+    rw [hp]
+    simp only [sumVars, sumVar, sumRange, Model.cardS, Model.priorS, Model.eqn, conf3]
+    simp [Val.set, List.range_succ]
+    have h1 : σ 0 = 0 ∨ σ 0 = 1 := by omega
+    rcases h1 with h1 | h1 <;> simp [h1] <;> norm_num
+  · have hp : conf3.privOf 100 1 = [102] := by decide
+    rw [hp]
+    simp only [sumVars, sumVar, sumRange, Model.cardS, Model.priorS, Model.eqn, conf3]
+    simp [Val.set, List.range_succ]
+    have h1 : σ 1 = 0 ∨ σ 1 = 1 := by omega
+    rcases Nat.mod_two_eq_zero_or_one (σ 0 + σ 100) with hm | hm <;> rcases h1 with h1 | h1
+    all_goals
+      (have e1 : (σ 0 + (σ 100 + 1)) % 2 = 1 - (σ 0 + σ 100) % 2 := by omega
+       simp [e1, hm, h1]
+       try norm_num)
+  · have hp : conf3.privOf 100 2 = [103] := by decide
+    rw [hp]
+    simp only [sumVars, sumVar, sumRange, Model.cardS, Model.priorS, Model.eqn, conf3]
+    simp [Val.set, List.range_succ]
+    have h1 : σ 2 = 0 ∨ σ 2 = 1 := by omega
+    rcases Nat.mod_two_eq_zero_or_one (σ 1 + σ 100) with hm | hm <;> rcases h1 with h1 | h1
+    all_goals
+      (have e1 : (σ 1 + (σ 100 + 1)) % 2 = 1 - (σ 1 + σ 100) % 2 := by omega
+       simp [e1, hm, h1]
+       try norm_num)
+
+/-- so the semi-Markovian model induced by `conf3` is in the model class of C01 -/
+example : (conf3.toScm (fun _ => 2) 100).Compatible conf3G :=
+  toScm_compatible conf3_toScmOK conf3_normalised conf3_kernPos
+
+/-- and `id_sound_fscm` applies: ID's estimand for `P(X | do(Z))` on `Z → X → Y`, `X ↔ Y`, evaluated in the
+(counterfactual) environment of `conf3`, is the mass of the noise points at which `X_{Z := z} = x` -/
+example (σ' σ : Val) (hσ : ∀ x, σ x < 2) :
+    ∃ e, identify checkedTopo conf3G [0] [1] = .ok e ∧
+      den (conf3.fscmEnv (fun _ => 2)) σ' e σ = Fscm.prob conf3 [⟨1, [(0, σ 0)], σ 1⟩] := by
+  have h : ∃ e, identifyF checkedTopo 8 conf3G [0] [1] = .ok e := ⟨_, rfl⟩
+  obtain ⟨e, he⟩ := h
+  exact ⟨e, identifyF_ok _ 8 _ _ _ _ he,
+    id_sound_fscm checkedTopo_sound conf3G [0] [1]
+      ⟨MG.wf_fromEdges _ _ _, ⟨fun v => v, by decide⟩, by decide, by decide, by decide⟩ (by decide) e
+      (identifyF_ok _ 8 _ _ _ _ he) conf3 (fun _ => 2) 100 conf3_toScmOK conf3_normalised conf3_kernPos σ' σ hσ⟩
+
+end example_conf3
 
 /-! ## non-vacuity: concrete semi-Markovian models -/
 
